@@ -960,7 +960,7 @@ impl TwoFloat {
             //          with another lookup table
 
             // x = y/2 + z
-            let y = libm::round(2.0 * self.hi());
+            let y = (2.0 * self).round().hi();
             let z = self - y / 2.0;
 
             // exp(z + y/2) = (1 + expm1(z)) exp(1/2)^y
